@@ -62,6 +62,33 @@ CHECKS["C03"] = dict(
     note="completeness is decided for designed steady states (drops <= 6 % per element, <= 25 % per path) only; wrappers depend on the private method names (degrade to black-box if absent)",
     design="DESIGN.md 7 (C03)")
 
+TWIN_NOTE = "trusts the projection / canonicalisation of reports (row order, node numbering and sibling order removed, nothing else) and the exact-class tolerance 1e-9"
+CHECKS.update({
+    "C12": dict(technique="trace validation by TLC (Twin.tla): projected state and reports of from_file(save(S)) against S; version gate relation",
+                text="For numeric instantiations of TLC-generated structures (tables, limits, rails, groups, phases, mux, several sources, both rectifier modes) and a showcase with every parameter of "
+                     "every kind non-default and default, TLC compares the projected abstract state of the reloaded system with the original (component payloads, ordered mux inputs, rails, groups, "
+                     "phase tables) and the solve/rail_rep/params/limits/phases reports as row sets; documents stamped with versions around the installed one must be refused iff newer.",
+                note=TWIN_NOTE + "; limits compared on applicable keys", design="DESIGN.md 7 (C12)"),
+    "C16": dict(technique="TLA+ edit model (SysTree) + trace validation of replayed histories (TraceEdit.tla) + report equality against a freshly built system (Twin.tla)",
+                text="Every accepted edit of TLC-generated histories must leave exactly the state the documented effect of the edit yields (C16.Structure, judged with the SysTree actions); at the end of "
+                     "every simulated history and in every state of the bounded edit graph all reports must succeed, list exactly the live components, and equal the reports of a system built from "
+                     "scratch from the projected state in canonical and in randomly permuted order.", note=TWIN_NOTE, design="DESIGN.md 7 (C16)"),
+    "C17": dict(technique="TLA+ state machine of batt_life (Batt.tla, TLC) + fault-injected trace validation (TraceBatt.tla) + read-only clauses on recorded analysis calls (TraceEdit.tla, Twin.tla)",
+                text="BattRestored is an invariant of Batt.tla (every terminal state carries the user's source parameters). The real batt_life is run with a failure injected at the k-th probe / "
+                     "deplete / solver call and on normal return; TLC requires the battery Source to be unchanged afterwards. Random interleavings of all eleven analyses (argument variety) are "
+                     "recorded: projected state, deep digest of all payloads and argument objects must be unchanged, solve() before = after = repeated, exactly.",
+                note="fault points: k in 1..4 per callback kind; deep digest covers node payloads, registries, edges", design="DESIGN.md 7 (C17)", category="model_checking"),
+    "C18": dict(technique="TLA+ state machine of batt_life (Batt.tla, TLC) + trace validation of every callback and solver call (TraceBatt.tla)",
+                text="PhaseCycle, LogShape, OnlySourceDepleted hold on Batt.tla. Recorded runs (any source as battery, 0/2/3 phases, numeric and scripted battery models, several cutoffs) must follow the "
+                     "machine: probe, then solve/deplete pairs exactly while the battery is alive; the source carries the battery's present voltage and impedance during each solve; each depletion gets the "
+                     "duration of the cycling phase (or cap0*3.6/i) and the battery row's Iout of a reference solve on a deep copy; the log is the initial state plus every alive state with increasing time.",
+                note="the reference solve uses the loop's own tolerances (vtol 1e-5, itol 1e-6)", design="DESIGN.md 7 (C18)"),
+    "C20": dict(technique="TLC enumeration of an argument lattice with the algebraic theorems of the formulas as invariants (MCUtils.tla) + validation of the evaluated functions (Utils.tla)",
+                text="MCUtils.tla states the formulas over an integer lattice and TLC checks the listed algebraic properties as theorems of the formula; every lattice tuple (with positive jitter) and every "
+                     "metamorphic partner is evaluated by the real functions and held, cross-multiplied over exact decimals, to the closed forms and partner relations.",
+                note="a pure function: the weakest fit for the technique; tolerance 1e-12 relative", design="DESIGN.md 7 (C20)"),
+})
+
 NOT_BUILT = "check not built yet in this round (framework under construction; see DESIGN.md section 13)"
 
 
